@@ -17,12 +17,13 @@ type cenv struct {
 	resolve func(name string, st *State) (Val, bool)
 	old     *State
 	pkgPath string
+	visited func(k Term) Term // inside a loop over a map: has key k been iterated over already?
 }
 
 func (fc *FuncContract) PkgPath() string { return fc.Pkg }
 
 func (c *cenv) with(name string, v Val) *cenv {
-	n := &cenv{vals: map[string]Val{}, resolve: c.resolve, old: c.old, pkgPath: c.pkgPath}
+	n := &cenv{vals: map[string]Val{}, resolve: c.resolve, old: c.old, pkgPath: c.pkgPath, visited: c.visited}
 	for k, x := range c.vals {
 		n.vals[k] = x
 	}
@@ -408,6 +409,11 @@ func (e *Exec) ccall(st *State, x *ast.CallExpr, env *cenv) Val {
 				cl = Val{T: e.closed0()}
 			}
 			return Val{T: Select(cl.T, ch.T), GT: boolT}
+		case "visited":
+			if env.visited == nil {
+				e.fail(x.Pos(), "contract: visited() is only available in invariants of loops over maps")
+			}
+			return Val{T: env.visited(arg(0).T), GT: boolT}
 		case "allocated":
 			// allocated(r): the reference r exists already (it is below the allocation counter), so anything
 			// allocated later is different from it
